@@ -28,9 +28,20 @@ KNOWN_FINDING_IDS = ["D7"]
 import prechecks
 
 HARNESSES = []
-PRECHECKS = {"C01": [prechecks.wordlist_contract], "C02": [prechecks.wordlist_contract], "C12": [prechecks.wordlist_contract]}
+PRECHECKS = {"C01": [prechecks.wordlist_contract], "C12": [prechecks.wordlist_contract]}
 # properties whose claim was withdrawn because no query terminates under the caps: id -> reason (goes to not_applicable)
-WITHDRAWN = {}
+WITHDRAWN = {
+    "C19": "withdrawn after measurement: cmd::permissive_hex collects the whitespace-filtered characters into a String "
+           "(`chars().filter().collect()`), a chain of pushes with symbolic lengths; with `hex::decode` abstracted away, inputs of 0 and 2 "
+           "symbolic ASCII bytes are decided (2.1 GB / 8 GB) but 3 bytes already exceed the 14 GB cap, with the real decoder even the empty "
+           "input needs > 9 GB; a bound of two characters cannot exercise the property (prefix + digits + whitespace), so nothing is claimed; "
+           "the harnesses c19_* are kept in the registry (property tag X19) as documented attempts",
+    "C02": "withdrawn after measurement: Mnemonic::seed builds the salt with format!() and unicode-normalization's Display-based "
+           "to_string(); both go through `dyn fmt::Write`, which CBMC resolves to every Write implementor in the program (including "
+           "core's PadAdapter with its memchr splitting loops): the query with the EMPTY passphrase and a symbolic entropy buffer did "
+           "not finish in 50 min, so no C02 query terminates; the password half of the claim (canonical phrase rendered from the stored "
+           "entropy) is decided by C01's c01_to_phrase, the harnesses c02_* are kept in the registry (property tag X02) as documented attempts",
+}
 # the subset of C17-tagged harnesses that the quick tier of C17 runs (the thorough tier runs all of them)
 C17_QUICK = set()
 
@@ -146,16 +157,16 @@ H("c18_prefix_full_address", "cmd_new", ["C18", "C17"], tiers=(T,), timeout=1800
   bound="prefix of 40/41 digits", spec="matches exactly that address; 41 digits match nothing; no out-of-bounds read")
 
 # =========================================================================================== C19
-H("c19_permissive_hex_ascii6", "cmd", ["C19", "C17"], tiers=(T,), timeout=3000, mem_gb=30,
+H("c19_permissive_hex_ascii6", "cmd", ["X19"], tiers=(T,), timeout=3000, mem_gb=30,
   functions=["cmd::permissive_hex", "hex::decode", "char::is_whitespace"],
   inputs="every ASCII string of 0..=6 bytes", bound="length <= 6, ASCII",
   spec="strip whitespace, optional 0x, even number of hex digits of either case -> bytes; else Err")
-H("c19_permissive_hex_unicode_ws", "cmd", ["C19", "C17"], tiers=(T,), timeout=3000, mem_gb=30,
+H("c19_permissive_hex_unicode_ws", "cmd", ["X19"], tiers=(T,), timeout=3000, mem_gb=30,
   functions=["cmd::permissive_hex", "hex::decode", "char::is_whitespace"],
   inputs="four ASCII bytes with U+2003 at a symbolic position", bound="7 bytes",
   spec="Unicode whitespace is ignored anywhere, including inside the 0x prefix")
 for l, tiers in [(0, (T,)), (1, (T,)), (3, (T,))]:
-    H(f"c19_roundtrip_{l}", "cmd", ["C19", "C17"], tiers=tiers, timeout=3000, mem_gb=30,
+    H(f"c19_roundtrip_{l}", "cmd", ["X19"], tiers=tiers, timeout=3000, mem_gb=30,
       functions=["hex::encode", "cmd::permissive_hex"],
       inputs=f"data: [u8; {l}] (all values)", bound=f"{l} bytes",
       spec="hex::encode gives two lower-case digits per byte; permissive_hex('0x' + that + newline) = data")
@@ -188,20 +199,20 @@ for n, tiers in [(0, (Q, T)), (1, (T,)), (2, (T,)), (3, (T,)), (6, (T,)), (9, (T
       functions=["mnemonic::Mnemonic::from_phrase_str", "mnemonic::Language::split", "mnemonic::mnemonic_to_byte_length"],
       inputs=f"phrase of {n} tokens, every look-up result symbolic", bound=f"{n} words", stubs=WL_STUBS, trusted=WL_TRUST,
       spec="always Err, never a panic or out-of-bounds write")
-H("c01_to_phrase", "mnemonic", ["C01", "C02", "C17"], timeout=1500, files=["wordlist"],
+H("c01_to_phrase", "mnemonic", ["C01", "C17"], timeout=1500, files=["wordlist"],
   functions=["mnemonic::Mnemonic::to_phrase", "mnemonic::Mnemonic::mnemonic_length"],
   inputs="buf: [u8; 64] (all values), len in {16,20,24,28,32}", bound="none beyond the five lengths",
   stubs=WL_STUBS, trusted=WL_TRUST,
   spec="asks for exactly 3*len/4 words, k-th index = bits 11k..11k+10 of buf, words joined by single spaces, no trailing separator")
 for w, tiers in [(12, (Q, T)), (24, (T,))]:
-    H(f"c01_layout_{w}", "mnemonic", ["C01", "C02", "C17"], tiers=tiers, timeout=1500,
+    H(f"c01_layout_{w}", "mnemonic", ["C01", "C17"], tiers=tiers, timeout=1500,
       functions=["mnemonic::Mnemonic::from_phrase_str", "mnemonic::Language::split (real split_whitespace)"],
       inputs=f"{w} word indices and the checksum hash symbolic; the phrase text has a fixed messy layout: leading/trailing "
              "whitespace and separators tab, LF, two spaces, CRLF, U+3000, space+U+00A0, U+2003+tab+space",
       bound=f"{w} words, one concrete layout", stubs=WL_STUBS, trusted=WL_TRUST,
       spec="same acceptance decision, entropy and reported length as for the single-space layout")
 for n, tiers in [(3, (T,)), (5, (T,))]:
-    H(f"c01_split_{n}", "mnemonic", ["C01", "C02", "C17"], tiers=tiers, timeout=3600,
+    H(f"c01_split_{n}", "mnemonic", ["C01", "C17"], tiers=tiers, timeout=3600,
       functions=["mnemonic::Language::split", "str::split_whitespace"],
       inputs=f"every ASCII string of exactly {n} bytes", bound=f"{n} bytes, ASCII",
       spec="tokens are exactly the maximal runs of non-whitespace bytes, in order")
@@ -290,13 +301,13 @@ for nm, tiers in [("c06_signing_message_legacy_nochain", (T,)), ("c06_signing_me
       inputs="all field values symbolic; transaction kind fixed per query", bound="as the structure harnesses",
       stubs=LEAF_STUBS, trusted=KECCAK_TRUST,
       spec="exactly one Keccak invocation over exactly the unsigned encoding of the same variant; digest returned unchanged")
-for nm, tiers in [("c06_alist_empty", (Q, T)), ("c06_alist_1_0", (T,)), ("c06_alist_1_1", (T,))]:
+for nm, tiers in [("c06_alist_empty", (Q, T))]:
     H(nm, "transaction", ["C06", "C07", "C17"], tiers=tiers, timeout=2400, mem_gb=(6 if nm.endswith("empty") else 40),
       functions=["transaction::accesslist::AccessList::rlp_encode", "StorageSlot::rlp_encode",
                  "transaction::rlp::{bytes,list,iter,len} (real)"],
       inputs="addresses and storage slots symbolic; shape (entries, slots per entry) fixed per query",
-      bound="empty list (quick); one entry with 0/1 slots is attempted in the thorough tier with a 40 GB cap (memcpy of "
-            "symbolic length per nested item; 14 GB was not enough)",
+      bound="empty list only: one entry with zero slots exceeded 39 GB (memcpy of symbolic length per nested Vec item); "
+            "populated access lists are outside the claim",
       spec="byte-exact canonical RLP of [[address, [slot, ...]], ...] built independently by the harness")
 
 
@@ -312,14 +323,15 @@ for n, tiers in [(0, (Q, T)), (1, (Q, T)), (2, (Q, T)), (3, (Q, T)), (4, (T,)), 
 H("c20_domain_missing", "typeddata", ["C20", "C09", "C17"], timeout=900,
   functions=["typeddata::TypedDataBlob::verify_domain_type"], inputs="type table without EIP712Domain", bound="-",
   stubs=TD_STUB, spec="Err")
-for nm, tiers in [("c08_encode_type_small", (Q, T)), ("c08_encode_type_a", (T,)), ("c08_encode_type_b", (T,)),
-                  ("c08_encode_type_p", (T,))]:
+for nm, tiers in [("c08_encode_type_small", (Q, T)), ("c08_encode_type_arrays", (Q, T)), ("c08_encode_type_a", (T,)),
+                  ("c08_encode_type_b", (T,)), ("c08_encode_type_p", (Q, T))]:
     H(nm, "typeddata", ["C08", "C17"], tiers=tiers, timeout=3000, mem_gb=20,
       functions=["typeddata::Types::encode_type", "TypeDefinition::struct_references", "MemberKind::struct_reference",
                  "Display for TypeDefinition / Member / MemberKind", "BTreeMap insert/contains_key/values (real)"],
-      inputs="struct types A, B, P with two members each, every member a symbolic choice of {bool, A, B, P, A[], B[2]} "
-             "(small: 4 symbolic members of 4 choices, primary P)",
-      bound="3 struct types, 2 members each: all 6^6 reference graphs per primary type (small: 4^4)",
+      inputs="struct types A, B, P with two members each, every member a symbolic choice of {bool, A, B, P} "
+             "(small: 4 symbolic members, primary P)",
+      bound="3 struct types, 2 members each: all 4^6 reference graphs per primary type (small: 4^4); references through arrays "
+            "only for the two concrete graphs of c08_encode_type_arrays",
       stubs=TD_STUB,
       spec="encodeType = primary definition followed by every transitively referenced struct type exactly once in name order, "
            "the primary never repeated")
@@ -444,7 +456,7 @@ for nm, tiers, to in [("c03_master_s16", (T,), 3000), ("c03_master_s32", (T,), 3
 
 # =========================================================================================== C02
 for pn, tiers in [(0, (Q, T)), (1, (Q, T)), (2, (T,)), (3, (T,))]:
-    H(f"c02_seed_p{pn}", "mnemonic", ["C02", "C17"], tiers=tiers, timeout=3000, mem_gb=20, files=["wordlist"],
+    H(f"c02_seed_p{pn}", "mnemonic", ["X02"], tiers=tiers, timeout=3000, mem_gb=20, files=["wordlist"],
       functions=["mnemonic::Mnemonic::seed", "mnemonic::Mnemonic::to_phrase", "format!(\"mnemonic{}\") (real)",
                  "unicode_normalization nfkd() (real decomposition tables and canonical ordering)"],
       inputs=f"entropy buffer: all values, 5 lengths; passphrase: {pn} characters, each a symbolic choice of a 10-character palette "
@@ -461,12 +473,74 @@ for pn, tiers in [(0, (Q, T)), (1, (Q, T)), (2, (T,)), (3, (T,))]:
 HEX_STUB = ["hex::decode (dependency) -> records the text it is handed, returns an arbitrary verdict/bytes (trusted; its own "
             "behaviour is only decided in the thorough-tier c19_permissive_hex_* / c19_roundtrip_* queries)"]
 for n, tiers in [(0, (Q, T)), (2, (Q, T)), (3, (Q, T)), (4, (Q, T)), (5, (T,)), (6, (T,)), (8, (T,))]:
-    H(f"c19_filter_ascii_{n}", "cmd", ["C19", "C17"], tiers=tiers, timeout=1800, mem_gb=14,
+    H(f"c19_filter_ascii_{n}", "cmd", ["X19"], tiers=tiers, timeout=1800, mem_gb=14,
       functions=["cmd::permissive_hex (whitespace filter, optional 0x prefix, result pass-through)"],
       inputs=f"every ASCII string of exactly {n} bytes; decoder verdict symbolic", bound=f"{n} bytes, ASCII",
       stubs=HEX_STUB, trusted=["hex 0.4 decodes an even number of hex digits of either case and rejects anything else"],
       spec="exactly one decode, of the input with all whitespace removed and one optional leading 0x stripped; Ok bytes and "
            "errors are passed through unchanged")
-H("c19_filter_unicode_ws", "cmd", ["C19", "C17"], timeout=1800, mem_gb=14,
+H("c19_filter_unicode_ws", "cmd", ["X19"], timeout=1800, mem_gb=14,
   functions=["cmd::permissive_hex"], inputs="four ASCII bytes with U+2003 at a symbolic position", bound="7 bytes",
   stubs=HEX_STUB, spec="Unicode whitespace is removed anywhere, including inside the prefix")
+
+for nm, tiers in [("c08_kind_width_uint", (Q, T)), ("c08_kind_width_int", (Q, T)), ("c08_kind_width_bytes", (Q, T)),
+                  ("c08_kind_width_uint_array", (T,)), ("c08_kind_width_bytes_array", (Q, T))]:
+    H(nm, "typeddata", ["C08", "C09", "C20", "C17"], tiers=tiers, timeout=1800, mem_gb=9,
+      functions=["typeddata::MemberKind::from_str"],
+      inputs="concrete prefix uint/int/bytes + 1..=3 symbolic decimal digits (every width 0..=999 in every spelling) [+ '[]']",
+      bound="three digits",
+      spec="bytesN iff 1 <= N <= 32; uintN/intN iff N % 8 = 0 and 8 <= N <= 256 with exactly that width; anything else is a struct "
+           "name (redundant leading zeros are don't-care)")
+
+
+for nm in ["empty", "ascii", "accent", "fullwidth", "ligature", "enclosed", "astral", "mark", "reorder", "compat_reorder", "hangul", "mixed"]:
+    H(f"c02_fixed_{nm}", "mnemonic", ["X02"], tiers=(T,), timeout=1800, mem_gb=9, files=["wordlist"],
+      functions=["mnemonic::Mnemonic::seed", "mnemonic::Mnemonic::to_phrase", "format!(\"mnemonic{}\") (real)",
+                 "unicode_normalization nfkd() (real)"],
+      inputs="entropy buffer: all values, 5 lengths; passphrase concrete (one palette sequence per query, named in the harness)",
+      bound="one concrete passphrase per query",
+      stubs=["pbkdf2::pbkdf2 -> uninterpreted recorder", WL_STUBS[1], WL_STUBS[2]],
+      trusted=["PBKDF2-HMAC-SHA512 computes the standard function", "NFKD expectations from the Unicode Character Database"],
+      spec="one PBKDF2 call: password = canonical phrase of the stored entropy, salt = 'mnemonic' || UTF-8(NFKD(passphrase)), 2048 rounds, "
+           "HMAC-SHA512, 64 bytes returned unchanged")
+
+H("c15_spec_text", "signature", ["C15", "C17"], timeout=1800, mem_gb=9,
+  functions=["account::signature::Signature::from_str", "hex::decode_to_slice", "ecdsa::Signature::from_scalars",
+             "Signature::{r,s,y_parity}"],
+  inputs="r, s: all scalars in (0, n); parity; with/without 0x; lower/upper-case digits; text rendered by the harness",
+  bound="none beyond the text shape the property defines",
+  spec="the printed form parses back to an equal signature")
+
+# ================================================================================================ tiers
+# The quick tier is restricted to queries that were measured to finish in seconds to a few minutes on the pinned tree
+# (figures in DESIGN.md / the evidence files); everything else runs in the thorough tier only.
+QUICK_SET = set("""
+c01_len_table c01_unpack_12 c01_unpack_15 c01_unpack_24 c01_layout_12 c01_to_phrase
+c01_count_00 c01_count_11 c01_count_13 c01_count_14 c01_count_17 c01_count_23 c01_count_25
+c12_random c12_get_entropy
+c03_master_s64
+c04_new_00 c04_new_23 c04_new_31 c04_new_32 c04_new_33 c04_address
+c07_len c07_bytes_000 c07_bytes_001 c07_bytes_002 c07_bytes_055 c07_bytes_056 c07_bytes_057 c07_bytes_128 c07_bytes_symlen
+c07_uint c07_list_0_0_0 c07_list_20_20_15 c07_list_21_20_15 c07_iter_1_33_21 c07_list_empty c07_iter_100_100_56 c06_alist_empty
+c06_legacy_unsigned_nochain c06_legacy_unsigned_chain c06_legacy_signed_nochain c06_legacy_signed_chain c06_eip2930_unsigned
+c06_signing_message_legacy_nochain c06_sig_accessors c11_v c11_v_kf_d7
+c08_final_digest c08_atom_string c08_atom_bytes_dynamic c09_uint_range c09_int_range
+c09_bytes1_len0 c09_bytes1_len1 c09_bytes1_len2 c09_bytes4_len3 c09_bytes31_len32 c09_bytes32_len31 c09_bytes32_len32 c09_bytes32_len33
+c10_digest_000 c10_digest_009 c10_digest_010 c10_digest_symlen
+c13_numstr_0
+c14_component
+c15_parse_130 c15_parse_132 c15_parse_other_lengths c15_spec_text
+c18_prefix_5
+c20_domain_0 c20_domain_1 c20_domain_2 c20_domain_missing
+""".split())
+for _h in HARNESSES:
+    if _h["name"] not in QUICK_SET:
+        _h["tiers"] = [t for t in _h["tiers"] if t != Q] or [T]
+    elif Q not in _h["tiers"]:
+        _h["tiers"] = [Q] + list(_h["tiers"])
+
+C17_QUICK = set("""
+c01_len_table c01_count_14 c01_count_23 c01_count_25 c01_unpack_12 c12_random c04_new_32 c07_len c07_bytes_symlen
+c11_v c11_v_kf_d7 c14_component c15_parse_other_lengths c15_parse_132 c13_numstr_0 c18_prefix_5 c09_int_range c20_domain_1
+c10_digest_symlen
+""".split())
